@@ -181,10 +181,15 @@ class PubSubManager(Manager):
     def _handle_leave_room(self, message):
         sid = message.get('sid')
         namespace = message.get('namespace')
-        if self.is_connected(sid, namespace):
+        if self.is_connected(sid, namespace) and \
+                message.get('room') is not None:
+            # (None is the room that lists the connected clients)
             super().leave_room(sid, namespace, message.get('room'))
 
     def _handle_close_room(self, message):
+        if message.get('room') is None:
+            # (None is the room that lists the connected clients)
+            return
         super().close_room(room=message.get('room'),
                            namespace=message.get('namespace'))
 
